@@ -514,10 +514,22 @@ type Query struct {
 	ShowDeleted bool       `json:"show_deleted,omitempty"`
 	// FromG: query collection G with the filter applied to its members (join inversion path)
 	FromG bool `json:"from_g,omitempty"`
+	// DocIDs: the request additionally names documents with the docID argument (one id is rendered
+	// as a string, several as a list); the result must be restricted to them on both plans.
+	DocIDs []string `json:"doc_ids,omitempty"`
 }
 
 func (q *Query) args(withSlice bool) string {
 	var a []string
+	if len(q.DocIDs) == 1 {
+		a = append(a, fmt.Sprintf("docID: %q", q.DocIDs[0]))
+	} else if len(q.DocIDs) > 1 {
+		p := make([]string, len(q.DocIDs))
+		for i, d := range q.DocIDs {
+			p[i] = fmt.Sprintf("%q", d)
+		}
+		a = append(a, "docID: ["+strings.Join(p, ", ")+"]")
+	}
 	if q.Filter != nil {
 		if q.FromG {
 			a = append(a, "filter: {members: "+q.Filter.Render()+"}")
